@@ -15,7 +15,7 @@
    Definitions only. *)
 From Coq Require Import String List NArith ZArith Bool.
 From Verif Require Import Model.Types Model.Admission.
-From Verif Require Model.Throttle Model.Proxy.
+From Verif Require Model.Throttle Model.Proxy Model.Includer.
 Import ListNotations.
 Open Scope string_scope.
 Open Scope list_scope.
@@ -59,6 +59,15 @@ Record mgr := { mg_genesis : genesis; mg_da_block_time : Z;
    in-memory last-submitted height *)
 Record pbase := { pb_height : option N; pb_last : N }.
 
+(* the manager as far as the DA-inclusion functions read and write it (vocabulary of Model/Includer.v):
+   store height, the block stored at the height asked for (None: GetBlockData fails), the DA-included marks of the
+   two caches, the in-memory DA-included height, and whether the next SetFinal / store write succeeds *)
+Record iworld := { iw_sheight : N; iw_blk : option Includer.blk; iw_hm : Includer.marks; iw_dm : Includer.marks;
+                   iw_di : N; iw_fin_ok : bool; iw_put_ok : bool }.
+
+Definition mhas (mk : Includer.marks) (i : N) : bool := match Includer.mget mk i with Some _ => true | None => false end.
+Definition mget0 (mk : Includer.marks) (i : N) : N := match Includer.mget mk i with Some h => h | None => 0%N end.
+
 Inductive gval :=
 | VBool (b : bool) | VN (n : N) | VZ (z : Z)
 | VErr (nonnil : bool) | VNil
@@ -88,6 +97,12 @@ Inductive gval :=
 | VZero (ty : string)                           (* new(T) / var x T before anything was decoded into it *)
 | VHash (h : header) | VHCache (seen : list header) | VDCache (seen : list commitment) | VChan (name : string)
 | VEff (what : string) (args : list gval)       (* an effect: cache mark, signal, channel send *)
+(* DA inclusion (block/da_includer.go, manager.go IsDAIncluded / SetRollkitHeightToDAHeight) *)
+| VMgrI (w : iworld) | VStoreI (w : iworld) | VExecI (w : iworld) | VAtomicI (w : iworld)
+| VHMarks (m : Includer.marks) | VDMarks (m : Includer.marks)
+| VHdrI (b : Includer.blk) | VDatI (b : Includer.blk) | VIdH (id : N) | VIdD (id : N)
+| VLE64 (v : N)                                 (* 8 bytes, little endian *)
+| VKey (k : Includer.mkey) | VKeyPrefix
 | VUnit.
 
 Definition env := list (string * gval).
@@ -126,7 +141,7 @@ Definition sig_len (s : sigterm) : N := match s with SigEmpty => 0 | _ => 64 end
 Definition tyname (v : gval) : string :=
   match v with
   | VHeader _ => "Header" | VSHeader _ => "SignedHeader" | VSig _ => "Signature" | VData _ => "Data"
-  | VOSData _ => "SignedData" | VMgr _ => "Manager" | VPBase _ => "pendingBase" | VState _ => "State"
+  | VOSData _ => "SignedData" | VMgr _ => "Manager" | VMgrI _ => "Manager" | VPBase _ => "pendingBase" | VState _ => "State"
   | _ => "?"
   end.
 
@@ -187,6 +202,12 @@ Definition sel (v : gval) (f : string) : res gval :=
   | VPBase p =>
       if f =? "store" then RRet (VPBStore p) else
       if f =? "lastHeight" then RRet (VPBLast p) else RFail ("pendingBase." ++ f)
+  | VMgrI w =>
+      if f =? "store" then RRet (VStoreI w) else
+      if f =? "exec" then RRet (VExecI w) else
+      if f =? "daIncludedHeight" then RRet (VAtomicI w) else
+      if f =? "headerCache" then RRet (VHMarks (iw_hm w)) else
+      if f =? "dataCache" then RRet (VDMarks (iw_dm w)) else RFail ("Manager." ++ f)
   | VRec fields => match lookup fields f with Some v => RRet v | None => RFail ("field " ++ f) end
   | VIdsResult ids ts =>
       if f =? "IDs" then RRet (VIds ids 0) else
@@ -249,6 +270,29 @@ Definition meth (v : gval) (m : string) (args : list gval) : res gval :=
         | Proxy.GErr e => RRet (VTuple [VNil; VDAErr e])
         end
       else RFail ("DA." ++ m)
+  | VMgrI w, [] => if m =? "GetDAIncludedHeight" then RRet (VN (iw_di w)) else RFail ("Manager." ++ m)
+  | VStoreI w, [_] => if m =? "Height" then RRet (VTuple [VN (iw_sheight w); VNil]) else RFail ("store." ++ m)
+  | VStoreI w, [_; VN _] =>
+      if m =? "GetBlockData" then
+        match iw_blk w with
+        | Some b => RRet (VTuple [VHdrI b; VDatI b; VNil])
+        | None => RRet (VTuple [VNil; VNil; VErr true])
+        end
+      else RFail ("store." ++ m)
+  | VHdrI b, [] => if m =? "Hash" then RRet (VIdH (Includer.bh b)) else RFail ("header." ++ m)
+  | VDatI b, [] => if m =? "DACommitment" then RRet (VIdD (Includer.bd b)) else RFail ("data." ++ m)
+  | VIdH i, [] => if m =? "String" then RRet (VIdH i) else RFail ("Hash." ++ m)
+  | VIdD i, [] => if m =? "String" then RRet (VIdD i) else RFail ("Hash." ++ m)
+  | VHMarks mk, [VIdH i] =>
+      if m =? "IsDAIncluded" then RRet (VBool (mhas mk i)) else
+      if m =? "GetDAIncludedHeight" then
+        RIf (mhas mk i) (RRet (VTuple [VN (mget0 mk i); VBool true])) (RRet (VTuple [VN 0; VBool false]))
+      else RFail ("headerCache." ++ m)
+  | VDMarks mk, [VIdD i] =>
+      if m =? "IsDAIncluded" then RRet (VBool (mhas mk i)) else
+      if m =? "GetDAIncludedHeight" then
+        RIf (mhas mk i) (RRet (VTuple [VN (mget0 mk i); VBool true])) (RRet (VTuple [VN 0; VBool false]))
+      else RFail ("dataCache." ++ m)
   | VDAErr e, [] => if m =? "Error" then RRet (VStr (Proxy.e_msg e)) else RFail ("error." ++ m)
   | VSent _ t, [] => if m =? "Error" then RRet (VStr t) else RFail ("error." ++ m)
   | _, _ => RFail ("method " ++ m)
@@ -271,6 +315,7 @@ Definition builtin (globals : env) (f : string) (args : list gval) : res gval :=
     | [VAddr a; VAddr b] => RRet (VBool (addr_eqb a b))
     | [VCommit a; VCommit b] => RRet (VBool (commitment_eqb a b))
     | [VRoot a; VRoot b] => RRet (VBool (a =? b)%N)
+    | [VIdD a; VIdD b] => RRet (VBool (a =? b)%N)
     | _ => RFail "bytes.Equal"
     end
   else if f =? "KeyAddress" then
@@ -285,7 +330,13 @@ Definition builtin (globals : env) (f : string) (args : list gval) : res gval :=
     end
   else if (f =? "fmt.Errorf") || (f =? "errors.New") then RRet (VErr true)
   else if f =? "context.Background" then RRet VUnit
-  else if f =? "fmt.Sprintf" then RRet (VStr "")
+  else if f =? "fmt.Sprintf" then
+    match args with
+    | [VStr fm; VKeyPrefix; VN h] =>
+        if fm =? "%s/%d/h" then RRet (VKey (Includer.KH h)) else
+        if fm =? "%s/%d/d" then RRet (VKey (Includer.KT h)) else RFail "Sprintf: key format"
+    | _ => RRet (VStr "")
+    end
   else if f =? "uint64" then match args with [v] => RRet v | _ => RFail "uint64" end
   else if f =? "errors.Is" then
     match args with
@@ -415,6 +466,29 @@ Definition mut_call (f : string) (args : list gval) : option (gval * list (nat *
     | _ => None
     end
   else None.
+
+(* calls whose result matters AND that have an effect: a decision tree of (result, effects in order) — the outcome may
+   depend on a condition the evaluator cannot decide (does the compare-and-swap find the expected value?) *)
+Definition eff_meth (v : gval) (m : string) (args : list gval) : option (res (gval * list gval)) :=
+  match v, args with
+  | VExecI w, [_; VN n] =>
+      if m =? "SetFinal"
+      then Some (RIf (iw_fin_ok w) (RRet (VNil, [VEff "SetFinal" [VN n]])) (RRet (VErr true, [VEff "SetFinal" [VN n]])))
+      else None
+  | VStoreI w, [_; VKey k; VLE64 x] =>
+      if m =? "SetMetadata"
+      then Some (RIf (iw_put_ok w) (RRet (VNil, [VEff "put" [VKey k; VN x]])) (RRet (VErr true, [])))
+      else None
+  | VAtomicI w, [VN old; VN new] =>
+      if m =? "CompareAndSwap"
+      then Some (RIf (old =? iw_di w)%N (RRet (VBool true, [VEff "publish" [VN new]])) (RRet (VBool false, [])))
+      else None
+  | _, _ => None
+  end.
+(* binary.LittleEndian.PutUint64(b, v): the bytes of slice variable b become v *)
+Definition put_le (m : string) (args : list gval) : option (nat * gval) :=
+  if m =? "PutUint64" then match args with [_; VN x] => Some (0%nat, VLE64 x) | _ => None end else None.
+Definition slice_place (e : gexpr) : option string := match e with EVar x => Some x | _ => None end.
 
 Definition effect_of (v : gval) (m : string) (args : list gval) : option gval :=
   match v with
@@ -564,7 +638,16 @@ with exec (fuel : nat) (fs : list (string * gfun)) (globals en : env) (lg : list
                   | Some b => exec fuel' fs globals (b ++ en2) lg rest
                   | None => RFail "assignment arity"
                   end
-              | None => assign_pure xs (EMeth a m args)
+              | None =>
+                match eff_meth v m vs with
+                | Some outcome =>
+                    bind outcome (fun re =>
+                      match bind_result xs (fst re) with
+                      | Some b => exec fuel' fs globals (b ++ en) (rev (snd re) ++ lg) rest
+                      | None => RFail "assignment arity"
+                      end)
+                | None => assign_pure xs (EMeth a m args)
+                end
               end
             end))
       | SAssign xs (ECall f args) =>
@@ -602,7 +685,15 @@ with exec (fuel : nat) (fs : list (string * gfun)) (globals en : env) (lg : list
           bind (ev a) (fun v => bind (seq_res (map ev args)) (fun vs =>
             match effect_of v m vs with
             | Some eff => exec fuel' fs globals en (eff :: lg) rest
-            | None => bind (ev (EMeth a m args)) (fun _ => exec fuel' fs globals en lg rest)   (* a pure call, result dropped *)
+            | None =>
+              match put_le m vs with
+              | Some (i, nv) =>
+                  match option_map slice_place (nth_error args i) with
+                  | Some (Some x) => exec fuel' fs globals ((x, nv) :: en) lg rest
+                  | _ => RFail "PutUint64 into something that is not a variable"
+                  end
+              | None => bind (ev (EMeth a m args)) (fun _ => exec fuel' fs globals en lg rest)   (* a pure call, result dropped *)
+              end
             end))
       | SExpr e => bind (ev e) (fun _ => exec fuel' fs globals en lg rest)
       | SSendOrDone ch v oncancel =>
@@ -657,6 +748,11 @@ Definition da_globals (T : Proxy.table) : env :=
    ("coreda.StatusIncorrectAccountSequence", VStatus Proxy.StSeq); ("coreda.StatusContextCanceled", VStatus Proxy.StCanceled);
    ("coreda.StatusHeightFromFuture", VStatus Proxy.StFuture);
    ("placeholder", VUnit)].
+
+(* package-level names the DA-inclusion functions use *)
+Definition incl_globals : env :=
+  [("DAIncludedHeightKey", VKey Includer.KD); ("RollkitHeightToDAHeightKey", VKeyPrefix);
+   ("dataHashForEmptyTxs", VIdD 0); ("binary.LittleEndian", VUnit)].
 
 (* what the node reads of a ResultSubmit / ResultRetrieve: BaseResult.{Code, IDs, SubmittedCount, Height};
    a field the literal does not mention has its zero value *)
